@@ -22,6 +22,10 @@ trait Fl: linfa::Float + std::fmt::Debug {
     fn scope() -> &'static str;
     fn bits(self) -> u64;
     fn eps() -> f64;
+    fn min_sub() -> f64;     // smallest positive (subnormal) number
+    fn min_norm() -> f64;    // smallest positive normal number
+    fn max_fin() -> f64;     // largest finite number
+    fn mant() -> i32;        // explicit mantissa bits
 }
 impl Fl for f64 {
     const NAME: &'static str = "f64";
@@ -32,6 +36,10 @@ impl Fl for f64 {
     fn scope() -> &'static str { "float" }
     fn bits(self) -> u64 { self.to_bits() }
     fn eps() -> f64 { f64::EPSILON }
+    fn min_sub() -> f64 { f64::from_bits(1) }
+    fn min_norm() -> f64 { f64::MIN_POSITIVE }
+    fn max_fin() -> f64 { f64::MAX }
+    fn mant() -> i32 { 52 }
 }
 impl Fl for f32 {
     const NAME: &'static str = "f32";
@@ -42,6 +50,10 @@ impl Fl for f32 {
     fn scope() -> &'static str { "Z" }
     fn bits(self) -> u64 { self.to_bits() as u64 }
     fn eps() -> f64 { f32::EPSILON as f64 }
+    fn min_sub() -> f64 { f32::from_bits(1) as f64 }
+    fn min_norm() -> f64 { f32::MIN_POSITIVE as f64 }
+    fn max_fin() -> f64 { f32::MAX as f64 }
+    fn mant() -> i32 { 23 }
 }
 fn sc<F: Fl>(x: F) -> String { format!("({})%{}", x.lit(), F::scope()) }
 fn cvec<F: Fl>(xs: &[F]) -> String { format!("({})%{}", clist(xs, |x| x.lit()), F::scope()) }
@@ -386,7 +398,96 @@ fn gen_lin<F: Fl>(cx: &mut Ctx, r: &mut Sm64, maxn: usize, maxp: usize) {
 }
 
 // ---------------------------------------------------------------------------------------------
-fn norm_case<F: Fl>(cx: &mut Ctx, r: &mut Sm64, maxn: usize) {
+/// one row at an extreme magnitude of the float type F (all entries finite in F); returns (row, family name).
+/// Every value is built in f64 from the constants of F (smallest subnormal s, smallest normal m, largest finite M)
+/// and cast: the f64 -> f32 cast is correctly rounded, also into the subnormal range, and never exceeds M.
+fn ext_row<F: Fl>(r: &mut Sm64, p: usize) -> (Vec<f64>, &'static str) {
+    let (s, m, big) = (F::min_sub(), F::min_norm(), F::max_fin());
+    let sign = |r: &mut Sm64| if r.chance(0.5) { -1.0 } else { 1.0 };
+    // a subnormal number k * 2^j * s, roughly log-uniform over the subnormal range
+    let subn = |r: &mut Sm64| -> f64 {
+        let j = r.below((F::mant() - 19) as u64) as i32;
+        let k = 1 + r.below(1 << 20) as i64;
+        (k as f64) * (2.0f64).powi(j) * s
+    };
+    let kind = r.below(12);
+    let mut v: Vec<f64> = vec![0.0; p];
+    let name = match kind {
+        0 | 1 => {
+            // every entry subnormal or zero, at least one non-zero
+            for e in v.iter_mut() { *e = if r.chance(0.25) { if r.chance(0.3) { -0.0 } else { 0.0 } } else { sign(r) * subn(r) }; }
+            let j = r.below(p as u64) as usize;
+            if v[j] == 0.0 { v[j] = sign(r) * subn(r); }
+            "subnormal_entries"
+        }
+        2 | 3 => {
+            // one subnormal entry and zeros; the values around 1/M = m/4 are where a reciprocal starts to overflow
+            let j = r.below(p as u64) as usize;
+            for e in v.iter_mut() { *e = if r.chance(0.3) { -0.0 } else { 0.0 }; }
+            let c = match r.below(10) {
+                0 => s, 1 => 2.0 * s, 2 => 3.0 * s, 3 => m - s, 4 => m / 4.0, 5 => m / 4.0 - s, 6 => m / 4.0 + s, 7 => m / 2.0,
+                _ => subn(r),
+            };
+            v[j] = sign(r) * c;
+            "one_subnormal_and_zeros"
+        }
+        4 => {
+            // around the smallest normal number: subnormal and small normal entries, l1 norm crosses the border
+            for e in v.iter_mut() { *e = sign(r) * m * (0.25 + 3.75 * r.unit()); }
+            "near_min_normal"
+        }
+        5 => {
+            // subnormal entries whose sum is normal
+            for e in v.iter_mut() { *e = sign(r) * m * (0.5 + 0.4999 * r.unit()); }
+            "subnormal_entries_normal_l1"
+        }
+        6 => {
+            // near the largest finite number (l1 / l2 norms overflow for p >= 2; the max norm does not)
+            for e in v.iter_mut() { *e = sign(r) * big * (0.05 + 0.95 * r.unit()); }
+            if r.chance(0.4) { let j = r.below(p as u64) as usize; v[j] = sign(r) * big; }
+            "near_max"
+        }
+        7 => {
+            // l1 norm next to the overflow border: entries about M / p
+            let c = *r.pick(&[0.9, 0.99, 0.999999, 1.0, 1.01]);
+            for e in v.iter_mut() { *e = sign(r) * (big / p as f64) * c * (1.0 - 1.0e-3 * r.unit()); }
+            "l1_near_overflow"
+        }
+        8 => {
+            // squares next to the underflow border: entries about sqrt(m) * 2^j
+            let j = r.range(-8, 8) as i32;
+            for e in v.iter_mut() { *e = sign(r) * m.sqrt() * (2.0f64).powi(j) * (0.5 + r.unit()); }
+            "squares_near_underflow"
+        }
+        9 => {
+            // squares next to the overflow border: entries about sqrt(M) * 2^j
+            let j = r.range(-8, 8) as i32;
+            for e in v.iter_mut() { *e = sign(r) * big.sqrt() * (2.0f64).powi(j) * (0.5 + r.unit()) / 2.0; }
+            "squares_near_overflow"
+        }
+        10 => {
+            // mixed magnitudes in one row: huge or ordinary entries beside subnormal ones and zeros
+            let top = *r.pick(&[big, big / 3.0, 1.0, -2.5, 1.0e-9]);
+            for e in v.iter_mut() { *e = match r.below(3) { 0 => 0.0, 1 => sign(r) * subn(r), _ => top * (0.5 + 0.5 * r.unit()) }; }
+            let j = r.below(p as u64) as usize;
+            v[j] = top;
+            "mixed_magnitudes"
+        }
+        _ => {
+            // the border values themselves
+            for e in v.iter_mut() { *e = sign(r) * *r.pick(&[s, m, m - s, m + m * F::eps(), big, big / 2.0, m / 4.0, 0.0, 1.0]); }
+            if v.iter().all(|e| *e == 0.0) { v[0] = s; }
+            "border_values"
+        }
+    };
+    // guard: stay finite in F (the cast of a value above M would give inf)
+    for e in v.iter_mut() { if e.abs() > big { *e = e.signum() * big; } }
+    (v, name)
+}
+
+/// one norm-scaler case; `ext`: most rows are drawn at extreme magnitudes (subnormal entries, the borders of the
+/// normal range, one subnormal entry beside zeros, mixed magnitudes)
+fn norm_case<F: Fl>(cx: &mut Ctx, r: &mut Sm64, maxn: usize, ext: bool) {
     let id = cx.id;
     cx.id += 1;
     if !cx.out.wanted(id) { return; }
@@ -396,7 +497,14 @@ fn norm_case<F: Fl>(cx: &mut Ctx, r: &mut Sm64, maxn: usize) {
     let (scaler, kname) = match which { 0 => (NormScaler::l1(), "NL1"), 1 => (NormScaler::l2(), "NL2"), _ => (NormScaler::max(), "NMax") };
     let mut x: Vec<Vec<F>> = Vec::new();
     let mut nzero = 0;
+    let mut families: Vec<&'static str> = Vec::new();
     for _ in 0..n {
+        if ext && r.chance(0.8) {
+            let (row, fam) = ext_row::<F>(r, p);
+            families.push(fam);
+            x.push(row.iter().map(|v| F::of(*v)).collect());
+            continue;
+        }
         let kind = r.below(8);
         let row: Vec<f64> = match kind {
             0 => { nzero += 1; (0..p).map(|_| if r.chance(0.3) { -0.0 } else { 0.0 }).collect() }
@@ -416,15 +524,37 @@ fn norm_case<F: Fl>(cx: &mut Ctx, r: &mut Sm64, maxn: usize) {
     let y = guarded(AssertUnwindSafe(|| scaler.transform(xa.clone()))).ok().map(|a| rows(&a));
     let dsf = guarded(AssertUnwindSafe(|| scaler.transform(meta.dataset(xa.clone(), nt))));
     let mut meta_out = meta.clone();
-    let tags = vec![format!("norm_{}", kname), F::NAME.to_string()];
+    let mut tags = vec![format!("norm_{}", kname), F::NAME.to_string()];
+    if ext { tags.push("norm_extreme".into()); }
+    // decidable input classes (max |x| of a row is exact in every float type; the widening to f64 is exact)
+    let rmax: Vec<f64> = x.iter().map(|row| row.iter().fold(0.0f64, |a, v| a.max(v.to64().abs()))).collect();
+    // some non-zero row has max |x| below the smallest normal number (its max norm is subnormal)
+    let sub_max = rmax.iter().any(|&m| m > 0.0 && m < F::min_norm());
+    // some non-zero row has max |x| outside the range in which squares neither underflow nor overflow for p <= 6:
+    // f64 2^-507 .. 2^510, f32 2^-59 .. 2^62 (superset of the rows oracle bit 8192 can speak about)
+    let (lo2, hi2) = if F::IS32 { ((2.0f64).powi(-59), (2.0f64).powi(62)) } else { ((2.0f64).powi(-507), (2.0f64).powi(510)) };
+    let sq_out = rmax.iter().any(|&m| m > 0.0 && (m < lo2 || m > hi2));
+    // the l1 / max norm as the code computes it is non-zero and at most min_normal / 4 (2^-1024 resp. 2^-128): its reciprocal overflows
+    let recip_overflow = which != 1 && x.iter().any(|row| {
+        let nm = if which == 0 { row.iter().fold(F::zero(), |a, v| a + v.abs()) } else { row.iter().fold(F::zero(), |a, v| v.abs().max(a)) };
+        nm > F::zero() && nm.to64() <= F::min_norm() / 4.0
+    });
+    if sub_max { tags.push("row_max_subnormal".into()); }
+    if sq_out { tags.push("row_max_outside_square_range".into()); }
+    if recip_overflow { tags.push("norm_below_reciprocal_of_max".into()); }
     let tr: Vec<&str> = tags.iter().map(|s| s.as_str()).collect();
     let desc = format!(
-        "{{\"kind\": \"norm\", \"dtype\": {}, \"norm\": {}, \"n\": {}, \"p\": {}, \"zero_rows\": {}, \"X\": {:?}}}",
-        jstr(F::NAME), jstr(kname), n, p, nzero, x.iter().take(6).map(|r| r.iter().map(|v| v.to64()).collect::<Vec<f64>>()).collect::<Vec<_>>()
+        "{{\"kind\": \"norm\", \"dtype\": {}, \"norm\": {}, \"n\": {}, \"p\": {}, \"zero_rows\": {}, \"extreme\": {}, \"row_families\": {:?}, \"X\": {:?}}}",
+        jstr(F::NAME), jstr(kname), n, p, nzero, ext, families, x.iter().take(6).map(|r| r.iter().map(|v| v.to64()).collect::<Vec<f64>>()).collect::<Vec<_>>()
     );
     cx.out.bump(&format!("norm_{}", kname));
     cx.out.bump(&format!("dtype_{}", F::NAME));
     if nzero > 0 { cx.out.bump("norm_has_zero_row"); }
+    if ext { cx.out.bump("norm_extreme_case"); }
+    for f in &families { cx.out.bump(&format!("norm_row_{}", f)); }
+    if sub_max { cx.out.bump("class_row_max_subnormal"); }
+    if sq_out { cx.out.bump("class_row_max_outside_square_range"); }
+    if recip_overflow { cx.out.bump("class_norm_below_reciprocal_of_max"); }
     let yy = match y {
         None => { cx.out.rust_fail(id, 2048, &tr, "NormScaler::transform panicked on a finite matrix", &desc); cx.out.rust_eval(&desc, None); return; }
         Some(v) => v,
@@ -614,6 +744,7 @@ fn main() {
 
     // (c) structured random
     let (nlin, nnorm, nwh) = if thorough { (4000, 1200, 400) } else { (1000, 320, 130) };
+    let next = if thorough { 900 } else { 240 };
     let maxn = if thorough { 64 } else { 36 };
     for i in 0..nlin {
         let mut r = rng.fork();
@@ -621,11 +752,16 @@ fn main() {
     }
     for i in 0..nnorm {
         let mut r = rng.fork();
-        if i % 10 < 7 { norm_case::<f64>(&mut cx, &mut r, 12); } else { norm_case::<f32>(&mut cx, &mut r, 8); }
+        if i % 10 < 7 { norm_case::<f64>(&mut cx, &mut r, 12, false); } else { norm_case::<f32>(&mut cx, &mut r, 8, false); }
     }
     for _ in 0..nwh {
         let mut r = rng.fork();
         whiten_case(&mut cx, &mut r, if thorough { 6 } else { 4 });
     }
-    cx.out.finish("streams: fma self-test; exhaustive small (all columns over {-1,0,2}, n<=3 (4 thorough), 9 scaler variants); empty training data x variants x p; structured random linear scalers (14 column families incl. offset / badly scaled / constant / zero / tiny spread / eps boundary, f64+f32, row+column major, unseen data incl. copies, shifted rows and wrong widths); norm scalers (zero rows, single entries, 1e-9..1e9); whiteners (3 methods, full rank, n>p). A case is non-trivial when its training data has at least two distinct rows; distinct = distinct (data, variant, dtype, layout) hashes");
+    // (d) norm scalers on rows at extreme magnitudes (subnormal entries, borders of the normal range, mixed rows)
+    for i in 0..next {
+        let mut r = rng.fork();
+        if i % 10 < 6 { norm_case::<f64>(&mut cx, &mut r, 6, true); } else { norm_case::<f32>(&mut cx, &mut r, 6, true); }
+    }
+    cx.out.finish("streams: fma self-test; exhaustive small (all columns over {-1,0,2}, n<=3 (4 thorough), 9 scaler variants); empty training data x variants x p; structured random linear scalers (14 column families incl. offset / badly scaled / constant / zero / tiny spread / eps boundary, f64+f32, row+column major, unseen data incl. copies, shifted rows and wrong widths); norm scalers (zero rows, single entries, 1e-9..1e9); norm scalers at extreme magnitudes, f64+f32 (12 row families: subnormal entries, one subnormal entry beside zeros incl. the values around 1/MAX, around the smallest normal number, near the largest finite number, l1 sum and squares next to their overflow / underflow borders, mixed magnitudes, border values; mixed with ordinary and zero rows); whiteners (3 methods, full rank, n>p). A case is non-trivial when its training data has at least two distinct rows; distinct = distinct (data, variant, dtype, layout) hashes");
 }
